@@ -37,7 +37,7 @@ EXHAUSTIVE_SUBSPACES = 'all histories of length <= 3 (thorough: 4) over a 13-ope
 EXHAUSTIVE = {"quick": False, "thorough": False}
 N_RANDOM = {"quick": 30000, "thorough": 1500000}
 FLAVS = ["async_gen", "async_class", "async_class_bare", "async_class_full", "async_class_asend", "async_class_proxy",
-         "async_class_future"]
+         "async_class_future", "async_class_delegating"]
 
 STOP = "STOP"
 
